@@ -53,6 +53,12 @@ CHECKS = {
                   'SMT translation of the current kmers.pyx; counterexamples are replayed on the real kernels.',
              note='Trusted: z3/cvc5, the Cython front-end and C typing rules of kbmc (validated differentially against the compiled module), specs/kmers_spec.py.',
              ref='3/C07'),
+ 'C20': dict(engine='KX', technique='bounded model checking (QF_BV) of AdvancedIndexingMixin.__getitem__/_check_index with a bit-precise numpy dtype model for collection lengths < 2^31; CrossHair-driven exhaustive case split on the real SignatureArray/SignatureList/AnnotatedSignatures',
+             text='K: for every integer dtype, every entry value and every collection length below 2^31 the index array reaching _getitem_int_array holds the list-semantics positions, '
+                  'out-of-range raises IndexError and the caller\'s array is untouched.  X: every int index, slice triple, index list, mask, 2-3 step mutation sequence and equality variant '
+                  'within the bound behaves like numpy indexing of a plain list on the real containers.',
+             note='Trusted: z3/cvc5, the kbmc numpy model (comparison, astype/copy aliasing, np.add with out/where casting), numpy itself as the oracle for which positions an index selects.  HDF5Signatures is outside.',
+             ref='3/C20'),
 }
 
 NOT_APPLICABLE = {
